@@ -1,114 +1,118 @@
 #!/usr/bin/env python3
-"""Thorough tier for one property: (1) the rules on the whole module; (2) checker sensitivity on the current tree:
-   a. every single-edit variant of the library (generated from /repo's working tree by `hwcheck -gen-variants`) is
-      type-checked and ANALYSED (never executed) with this property's rules;
-   b. the seeded corpus /verif/seeded/*/patch.diff (independently written property-breaking changes) for this
-      property must be flagged;
+"""Thorough tier for one property:
+ (1) the property's rules on the whole module (./..., examples included);
+ (2) checker sensitivity on the CURRENT tree, by static analysis only (nothing is executed):
+   a. every single-edit variant of the hand-written library files (generated from /repo's working tree by
+      `hwcheck -gen-variants`: statement deleted / swapped, condition negated, operator changed, go/defer
+      added or removed) is re-type-checked in-process with the variant file laid over /repo and analysed
+      with this property's rules;
+   b. the seeded corpus /verif/seeded/*/patch.diff (independently written property-breaking changes) for
+      this property must be flagged;
    c. the benign corpus /verif/benign/*.diff (behaviour-preserving rewrites) must stay silent.
- Scratch copies live under $TMPDIR and are removed at once. The exit status is that of (1) only: (2) measures
- the checker, and is reported in the evidence file."""
-import json, os, shutil, subprocess, sys, tempfile, time, glob, concurrent.futures as cf, random
+ Scratch files live under a fresh temporary directory, removed at the end. The exit status is that of (1) only:
+ (2) measures the checker and is reported in the evidence file."""
+import json, os, shutil, subprocess, sys, tempfile, time, glob, re, concurrent.futures as cf
 
 prop = sys.argv[1]
-REPO = "/repo"
-V = "/verif"
+REPO, V = "/repo", "/verif"
 BIN = V + "/bin/hwcheck"
 ENV = dict(os.environ, GOFLAGS="-mod=mod", GOPROXY="off", GOWORK="off", GOTOOLCHAIN="local", GOSUMDB="off")
-known = {k["key"] for k in json.load(open(V + "/known_findings.json")) if k["status"] == "known" and k["property"] == prop}
-seed = int(os.environ.get("VERIF_SEED", "0") or 0)
 t0 = time.time()
 tmp = tempfile.mkdtemp(prefix="hw-thorough-")
+LIB = ["actor", "remote", "cluster", "ringbuffer", "safemap"]
 
-def copy_lib(dst):
-    os.makedirs(dst, exist_ok=True)
-    for p in ["actor", "remote", "cluster", "ringbuffer", "safemap", "go.mod", "go.sum"]:
-        s = os.path.join(REPO, p)
-        (shutil.copytree if os.path.isdir(s) else shutil.copy)(s, os.path.join(dst, p))
-
-def analyse(work):
-    p = subprocess.run([BIN, "-p", prop, "-repo", work, "-no-evidence", "-json"], capture_output=True, text=True, env=ENV)
-    keys, compiles = [], True
-    got = False
-    for line in p.stdout.splitlines():
-        if line.startswith("["):
-            got = True
-            for o in json.loads(line):
-                if o["rule"].endswith(".load"):
-                    compiles = False
-                elif o["verdict"] != "discharged" and o["key"] not in known:
-                    keys.append(o["key"])
-    return compiles and got, keys
-
-def run_patch(path):
-    work = tempfile.mkdtemp(prefix="v-", dir=tmp)
+def overlay_from_patch(path, dst, desc):
+    """applies the patch to a scratch copy of the library and stores only the files it touches as an overlay"""
+    work = tempfile.mkdtemp(prefix="p-", dir=tmp)
     try:
-        copy_lib(work)
+        for p in LIB:
+            shutil.copytree(os.path.join(REPO, p), os.path.join(work, p))
         a = subprocess.run(["patch", "-p1", "-s", "-f", "-d", work, "-i", path], capture_output=True, text=True)
         if a.returncode != 0:
-            return ("skipped", [])
-        ok, keys = analyse(work)
-        if not ok:
-            return ("nocompile", [])
-        return ("flagged" if keys else "silent", keys)
+            return False
+        os.makedirs(dst, exist_ok=True)
+        for m in re.finditer(r"^\+\+\+ b/(\S+)", open(path).read(), re.M):
+            rel = m.group(1)
+            if rel.split("/")[0] in LIB and rel.endswith(".go") and not rel.endswith("_test.go"):
+                os.makedirs(os.path.dirname(os.path.join(dst, rel)), exist_ok=True)
+                shutil.copy(os.path.join(work, rel), os.path.join(dst, rel))
+        open(os.path.join(dst, "desc.txt"), "w").write(desc + "\n")
+        return True
     finally:
         shutil.rmtree(work, ignore_errors=True)
 
-def run_variant(vdir):
-    desc, rel = open(os.path.join(vdir, "desc.txt")).read().split("\n")[:2]
-    work = tempfile.mkdtemp(prefix="v-", dir=tmp)
-    try:
-        copy_lib(work)
-        shutil.copy(os.path.join(vdir, rel), os.path.join(work, rel))
-        ok, keys = analyse(work)
-        return (desc, "nocompile" if not ok else ("flagged" if keys else "silent"), keys[:2])
-    finally:
-        shutil.rmtree(work, ignore_errors=True)
+def sweep(vroot, shards):
+    def run(i):
+        p = subprocess.run([BIN, "-sweep", vroot, "-p", prop, "-shard", "%d/%d" % (i, shards)], capture_output=True, text=True,
+                           env=dict(ENV, GOMAXPROCS="2"))
+        return [json.loads(l) for l in p.stdout.splitlines() if l.startswith("{")]
+    out = []
+    with cf.ThreadPoolExecutor(shards) as ex:
+        for rows in ex.map(run, range(shards)):
+            out += rows
+    return out
 
 extra = {}
 try:
-    # (b) seeded corpus
-    seeded = {"total": 0, "flagged": 0, "silent": [], "skipped": 0}
+    # (b) + (c): seeded and benign corpora as overlays
+    corp = os.path.join(tmp, "corpus")
+    os.makedirs(corp)
+    seeded_names, benign_names, skipped = [], [], []
     for meta in sorted(glob.glob(V + "/seeded/*/meta.json")):
         m = json.load(open(meta))
         if prop not in ([m.get("property")] + m.get("also_breaks", [])):
             continue
-        st, keys = run_patch(os.path.join(os.path.dirname(meta), "patch.diff"))
-        seeded["total"] += 1
-        if st == "flagged":
-            seeded["flagged"] += 1
-        elif st == "silent":
-            seeded["silent"].append(os.path.basename(os.path.dirname(meta)))
+        name = "seeded-" + os.path.basename(os.path.dirname(meta))
+        if overlay_from_patch(os.path.join(os.path.dirname(meta), "patch.diff"), os.path.join(corp, name), name):
+            seeded_names.append(name)
         else:
-            seeded["skipped"] += 1
-    extra["seeded_variants"] = seeded
-    # (c) benign corpus
-    benign = {"total": 0, "silent": 0, "flagged": [], "skipped": 0}
+            skipped.append(name)
     for d in sorted(glob.glob(V + "/benign/*.diff")):
-        st, keys = run_patch(d)
-        benign["total"] += 1
-        if st == "silent":
-            benign["silent"] += 1
-        elif st == "flagged":
-            benign["flagged"].append({"patch": os.path.basename(d), "keys": keys[:3]})
+        name = "benign-" + os.path.basename(d)[:-5]
+        if overlay_from_patch(d, os.path.join(corp, name), name):
+            benign_names.append(name)
         else:
-            benign["skipped"] += 1
-    extra["benign_variants"] = benign
+            skipped.append(name)
+    rows = {r["n"]: r for r in sweep(corp, 4)} if (seeded_names or benign_names) else {}
+    def flagged(n):
+        r = rows.get(n, {})
+        return (not r.get("compiles", False), r.get("fired", {}).get(prop, []))
+    sv = {"total": len(seeded_names), "flagged": 0, "silent": [], "do_not_compile": [], "patch_does_not_apply": [s for s in skipped if s.startswith("seeded-")]}
+    for n in seeded_names:
+        bad, keys = flagged(n)
+        if bad:
+            sv["do_not_compile"].append(n)
+        elif keys:
+            sv["flagged"] += 1
+        else:
+            sv["silent"].append(n)
+    bv = {"total": len(benign_names), "silent": 0, "flagged": [], "patch_does_not_apply": [s for s in skipped if s.startswith("benign-")]}
+    for n in benign_names:
+        bad, keys = flagged(n)
+        if keys or bad:
+            bv["flagged"].append({"patch": n, "keys": keys[:3]})
+        else:
+            bv["silent"] += 1
+    extra["seeded_variants"], extra["benign_variants"] = sv, bv
     # (a) generated single-edit variants
     vroot = os.path.join(tmp, "gen")
     subprocess.run([BIN, "-gen-variants", vroot, "-repo", REPO], capture_output=True, text=True, env=ENV)
-    names = sorted(os.listdir(vroot), key=int) if os.path.isdir(vroot) else []
-    random.Random(seed).shuffle(names)
-    budget = int(os.environ.get("VERIF_SWEEP_MAX", "100000"))
-    names = names[:budget]
-    counts = {"generated": len(names), "nocompile": 0, "flagged": 0, "silent": 0}
+    shards = int(os.environ.get("VERIF_WORKERS", "8"))
+    res = sweep(vroot, shards) if os.path.isdir(vroot) else []
+    counts = {"generated": len(res), "nocompile": 0, "flagged": 0, "silent": 0}
     samples = []
-    with cf.ThreadPoolExecutor(int(os.environ.get("VERIF_WORKERS", "12"))) as ex:
-        for desc, st, keys in ex.map(lambda n: run_variant(os.path.join(vroot, n)), names):
-            counts[st] += 1
-            if st == "flagged" and len(samples) < 8:
-                samples.append({"edit": desc, "reported": keys})
+    for r in sorted(res, key=lambda r: int(r["n"])):
+        if not r.get("compiles"):
+            counts["nocompile"] += 1
+        elif r.get("fired", {}).get(prop):
+            counts["flagged"] += 1
+            if len(samples) < 10 and counts["flagged"] % 7 == 1:
+                samples.append({"edit": r["desc"], "reported": r["fired"][prop][:2]})
+        else:
+            counts["silent"] += 1
     counts["samples_flagged"] = samples
-    counts["note"] = "single-edit variants (statement deleted / swapped, condition negated, operator or go/defer changed) of every hand-written library function, analysed with this property's rules only; 'silent' includes edits that are irrelevant to this property"
+    counts["note"] = ("single-edit variants of every hand-written library function, type-checked and analysed in-process with this property's rules only; "
+                      "'silent' includes the many edits that are irrelevant to this property")
     extra["generated_variants"] = counts
 finally:
     shutil.rmtree(tmp, ignore_errors=True)
@@ -117,6 +121,7 @@ os.makedirs(V + "/out", exist_ok=True)
 xf = V + "/out/%s-sweep.json" % prop
 json.dump(extra, open(xf, "w"))
 rc = subprocess.run([BIN, "-p", prop, "-tier", "thorough", "-extra", xf], env=ENV).returncode
-print("sweep: seeded %(flagged)d/%(total)d flagged" % extra["seeded_variants"], "| benign silent %d/%d" % (extra["benign_variants"]["silent"], extra["benign_variants"]["total"]),
-      "| generated: %(flagged)d flagged, %(silent)d silent, %(nocompile)d do not compile of %(generated)d" % extra["generated_variants"])
+sv, bv, gv = extra["seeded_variants"], extra["benign_variants"], extra["generated_variants"]
+print("sweep: seeded %d/%d flagged (silent: %s) | benign silent %d/%d (flagged: %s) | generated: %d flagged, %d silent, %d do not compile of %d | %.0fs" % (
+    sv["flagged"], sv["total"], sv["silent"], bv["silent"], bv["total"], [b["patch"] for b in bv["flagged"]], gv["flagged"], gv["silent"], gv["nocompile"], gv["generated"], extra["sweep_wall_s"]))
 sys.exit(rc)
